@@ -15,7 +15,7 @@ ZKEY_FROM = '<board::zkey::ZKey as std::convert::From<&board::Board>>::from'
 
 
 class Step:
-    def __init__(self, run, shape, zobrist='uf', tag='S'):
+    def __init__(self, run, shape, zobrist='uf', tag='S', prune=False):
         self.run = run
         self.shape = shape
         self.name = B.shape_name(shape)
@@ -25,6 +25,8 @@ class Step:
         self.pre = self.S.inv() + B.cons(self.S, self.m)
         for c in self.pre:
             self.ex.assume(c)
+        if prune:
+            self.ex.enable_pruning()
         self.st = State()
         self.bp = self.ex.alloc(self.st, self.S.value())
         self.board0 = self.S.value()
